@@ -322,7 +322,7 @@ func vfFilterBarCase(c *vfCtx, variant int) {
 	}
 	mark := 0
 	if !run(1, func() {
-		f.SetTerminalColumns(narrow) // the user narrows the terminal mid-transfer
+		f.SetTerminalColumns(narrow)       // the user narrows the terminal mid-transfer
 		time.Sleep(250 * time.Millisecond) // a line laid out before the resize may still be on its way
 		mark = rig.clientOut.Len()
 		if variant%2 == 1 {
@@ -433,7 +433,7 @@ func TestVF_C20(t *testing.T) {
 			cl := vfNameClasses()[r.Intn(7)]
 			names := vfNamesByClass[cl]
 			bc := vfBarCase{Width: int32(1 + r.Intn(500)), Name: names[r.Intn(len(names))], Count: counts[r.Intn(4)],
-				Size: []int64{0, 1, 2, 99, 100, 4096, 1 << 20, 1 << 31, 1<<31 + 7, 1 << 40, 1 << 62}[r.Intn(11)],
+				Size:    []int64{0, 1, 2, 99, 100, 4096, 1 << 20, 1 << 31, 1<<31 + 7, 1 << 40, 1 << 62}[r.Intn(11)],
 				History: []string{"monotone", "repeat", "regress", "resume", "hostile", "hostile"}[r.Intn(6)]}
 			switch r.Intn(4) {
 			case 1:
